@@ -5,7 +5,7 @@ from __future__ import annotations
 import ast
 from typing import Dict, List, Optional, Set, Tuple
 
-from ..core import AnalysisError, Func, norm, short, walk_no_nested
+from ..core import AnalysisError, Func, call_name, norm, short, walk_no_nested
 from ..util import guards_of, raises_in
 
 import re
@@ -389,3 +389,79 @@ def rule_guard_state_is_per_call(ctx, rep, rid: str, only: Set[str]) -> None:
             rep.ok(rid, key, {"containers": sorted(guards)})
     if n == 0:
         rep.ok(rid, "no-self-recursive-converter")
+
+
+# ---- the host-depth budget is ONE counter for all interpreters of an evaluation -----------------------
+def _depth_counter_attr(ctx) -> Optional[Tuple[str, Func, ast.If]]:
+    """(attribute name, function, guard) of the interpreter's host-depth guard: `if self.<attr>[..] >= bound: raise`."""
+    vmcls = ctx.facts.vm_dispatcher()[0].cls
+    for m in vmcls.all_methods:
+        for n in m.own_nodes():
+            if isinstance(n, ast.If) and isinstance(n.test, ast.Compare) and isinstance(n.test.ops[0], (ast.Gt, ast.GtE)) and any(isinstance(s, ast.Raise) and s.exc is not None and "MemoryLimitError" in norm(s.exc) for s in n.body):
+                left = n.test.left
+                base = left.value if isinstance(left, ast.Subscript) else left
+                if isinstance(base, ast.Attribute) and norm(base.value) == "self" and any(w in base.attr.lower() for w in ("depth", "nesting", "level")):
+                    return base.attr, m, n
+    return None
+
+
+def rule_depth_budget_shared(ctx, rep, rid: str) -> None:
+    """Nested interpreters (eval, Function, host-driven calls) run on the same host stack as the interpreter that
+    created them, so the nesting counter has to be one shared cell: adopted by reference when a nested
+    interpreter is created while an evaluation runs, and only ever updated in place."""
+    rep.rule(rid, "the host-stack nesting counter is one cell per evaluation: every interpreter created by script-reachable code adopts the running interpreter's counter object, and the counter is only updated in place (an adopted immutable number would be a private copy that forgets the levels in between)", floor=3)
+    found = _depth_counter_attr(ctx)
+    if found is None:
+        raise AnalysisError("host-depth guard (if self.<depth> >= bound: raise MemoryLimitError) not found in the interpreter class")
+    attr, gf, guard = found
+    vmcls = ctx.facts.vm_dispatcher()[0].cls
+    sr = ctx.facts.script_reachable()
+    n_sites = 0
+    adopted = False
+    source_is_innermost = True  # until a site is seen that adopts without registering the new interpreter
+    for f in ctx.tree.funcs:
+        if isinstance(f.node, ast.Lambda):
+            continue
+        for n in f.own_nodes():
+            if not (isinstance(n, ast.Assign) and isinstance(n.value, ast.Call) and call_name(n.value) == vmcls.name and len(n.targets) == 1 and isinstance(n.targets[0], ast.Name)):
+                continue
+            v = n.targets[0].id
+            ad = [a for a in f.own_nodes() if isinstance(a, ast.Assign) and len(a.targets) == 1 and isinstance(a.targets[0], ast.Attribute) and a.targets[0].attr == attr and norm(a.targets[0].value) == v]
+            key = f"{f.qual}:{v} = {vmcls.name}(..):adopts-{attr}"
+            if id(f) not in sr:
+                continue  # a top-level entry point: no evaluation of this context is running on the host stack
+            n_sites += 1
+            good = [a for a in ad if isinstance(a.value, ast.Attribute) and a.value.attr == attr]
+            if good:
+                adopted = True
+                # does this site make the new interpreter the one later sites adopt from (innermost-running discipline)?
+                src = good[0].value.value
+                if not any(isinstance(a, ast.Assign) and any(norm(t) == norm(src) for t in a.targets) and isinstance(a.value, ast.Name) and a.value.id == v for a in f.own_nodes()):
+                    source_is_innermost = False
+                rep.ok(rid, key, {"from": norm(good[0].value)})
+            elif ad:
+                rep.bad(rid, key, f"{f.qual} sets {v}.{attr} from {short(ad[0].value, 40)} rather than from the running interpreter's {attr}: the nested interpreter counts host levels on its own", f"{f.module.rel}:{ad[0].lineno}")
+            else:
+                rep.bad(rid, key, f"{f.qual} creates an interpreter while script code is running without adopting the running interpreter's {attr}: nesting through this path is not counted (host stack overflow instead of MemoryLimitError)", f"{f.module.rel}:{n.lineno}")
+    if n_sites == 0:
+        raise AnalysisError("no script-reachable interpreter creation site found")
+    # in-place updates only
+    init_ok = False
+    for m in vmcls.all_methods:
+        for n in m.own_nodes():
+            tgts = n.targets if isinstance(n, ast.Assign) else ([n.target] if isinstance(n, (ast.AugAssign, ast.AnnAssign)) else [])
+            for t in tgts:
+                if isinstance(t, ast.Attribute) and t.attr == attr and norm(t.value) == "self":
+                    key = f"{m.qual}:{norm(t)}:binding"
+                    val = getattr(n, "value", None)
+                    if m.name == "__init__" and isinstance(val, (ast.List, ast.Dict)) or (isinstance(val, ast.Call) and call_name(val) in ("list", "dict")):
+                        init_ok = True
+                        rep.ok(rid, key, {"initial": short(val, 30)})
+                    elif adopted and not source_is_innermost:
+                        rep.bad(rid, key, f"{m.qual} re-binds self.{attr} ({short(n, 50)}) although nested interpreters adopt it by assignment: each interpreter then counts on a private copy, and since the interpreter they adopt from is not replaced by the nested one while it runs, an eval/Function nested inside another starts again from the outer value", f"{m.module.rel}:{n.lineno}")
+                    else:
+                        rep.ok(rid, key)
+                elif isinstance(t, ast.Subscript) and isinstance(t.value, ast.Attribute) and t.value.attr == attr and norm(t.value.value) == "self":
+                    rep.ok(rid, f"{m.qual}:{norm(t)}:in-place")
+    if adopted and not source_is_innermost and not init_ok:
+        rep.bad(rid, f"{vmcls.name}.__init__:{attr}:cell", f"self.{attr} is adopted by nested interpreters but is not created as a mutable cell in __init__", gf.loc)
